@@ -412,3 +412,200 @@ Section Tape.
                   end = Ok (S e)) by (destruct k'; try discriminate; inversion C'; reflexivity).
       rewrite E. cbn [obind strict]. split; [exact RV|]. split; [lia|exact Logic.I].
   Qed.
+
+  (* ================================================================ the deserializer side *)
+  Section De.
+    Variable decode : bytes -> cow.
+    Variable parse_f64 : bytes -> outcome N.
+    Variable fo : fops.
+    Hypothesis Hdec : forall raw, wfl (cow_bytes (decode raw)).
+
+    (* a value handle is valid, and stands for at most n tokens *)
+    Definition kbound (k : vkind) (n : nat) : Prop :=
+      match k with
+      | KVal vi | KOpVal _ vi => exists en, vi < en /\ rng vi en /\ en - vi <= n
+      | KArr st en => rng st en /\ en - st + 1 <= n
+      | KScalar _ => True
+      | KStatic s => wfl s
+      end.
+
+    Lemma kbound_mono k n n' : kbound k n -> n <= n' -> kbound k n'.
+    Proof.
+      destruct k; cbn [kbound]; auto.
+      - intros (en & A & B & C) H. exists en. split; [exact A|split; [exact B|lia]].
+      - intros (en & A & B & C) H. exists en. split; [exact A|split; [exact B|lia]].
+      - intros [A B] H. split; auto; lia.
+    Qed.
+
+    (* what a visit hands to the visitor; loose = the range of a TVSeq may be as large as the value
+       itself (deserialize_seq on a Header value) *)
+    Definition tvb (loose : bool) (n : nat) (v : tvisit) : Prop :=
+      match v with
+      | TVPrim p => tprim_wf p
+      | TVSome k | TVNewtype k => kbound k n
+      | TVSeq st en => rng st en /\ en - st + (if loose then 0 else 1) <= n
+      | TVMap st en => map_ok st en /\ msz st en + 2 <= n
+      | TVPropMap _ vi => kbound (KVal vi) n
+      | TVEnum vi rest => (exists n', kbound (KVal vi) n') /\
+                          match rest with Some (_, en) => en <= length t | None => True end
+      end.
+
+    Lemma tvb_mono b b' n n' v : tvb b n v -> n <= n' -> (b = true -> b' = true) -> tvb b' n' v.
+    Proof.
+      destruct v; cbn [tvb]; auto.
+      - intros H L _. eapply kbound_mono; eauto.
+      - intros H L _. eapply kbound_mono; eauto.
+      - intros [A B] L Hb. split; auto. destruct b, b'; try lia; specialize (Hb eq_refl); discriminate.
+      - intros [A B] L _. split; auto. lia.
+      - intros H L _. eapply (kbound_mono (KVal vi)); eauto.
+    Qed.
+
+    Definition is_hdr (vi : nat) : bool := match nth_error t vi with Some (THeader _) => true | _ => false end.
+
+    Lemma pstr_wf s : tprim_wf (pstr (decode s)).
+    Proof. unfold pstr. cbn. apply Hdec. Qed.
+
+    Lemma any_leaf_ok b n tk : strict (tvb b n) (any_leaf decode tk).
+    Proof. destruct tk; cbn; auto; apply Hdec. Qed.
+
+    Lemma tv_seq_at_ok vi en n : vi < en -> rng vi en -> en - vi <= n ->
+      strict (tvb (is_hdr vi) n) (tv_seq_at decode t vi).
+    Proof.
+      intros L R Hn. destruct (val_cases vi en L R) as (tk & K & Hk). unfold tv_seq_at, is_hdr.
+      rewrite (tget_some _ _ K), K. cbn [obind].
+      eapply strict_bind; [apply (read_array_ok' vi en tk L R K)|].
+      intros [[st e]|] H; [|apply any_leaf_ok].
+      destruct H as (H1 & H2 & H3). cbn [strict tvb]. split; [exact H1|]. destruct tk; lia.
+    Qed.
+
+    Lemma tv_any_at_ok vi en n : vi < en -> rng vi en -> en - vi <= n ->
+      strict (tvb false n) (tv_any_at decode t vi).
+    Proof.
+      intros L R Hn. destruct (val_cases vi en L R) as (tk & K & Hk). unfold tv_any_at.
+      rewrite (tget_some _ _ K). cbn [obind].
+      destruct tk; try (apply any_leaf_ok); try contradiction.
+      - pose proof (tv_seq_at_ok vi en n L R Hn) as H. unfold is_hdr in H. rewrite K in H. exact H.
+      - destruct (map_ok_obj _ _ _ K) as (M1 & M2 & M3 & M4). cbn [strict tvb]. split; [exact M1|]. lia.
+      - destruct Hk as (L1 & R1 & k' & e & K' & C' & Le). rewrite K'.
+        destruct k'; try discriminate.
+        + pose proof (tv_seq_at_ok (S vi) en n L1 R1 ltac:(lia)) as H. unfold is_hdr in H. rewrite K' in H. exact H.
+        + destruct (map_ok_obj _ _ _ K') as (M1 & M2 & M3 & M4). cbn [strict tvb]. split; [exact M1|].
+          inversion C'; subst. lia.
+    Qed.
+
+    Lemma tv_any_ok k n : kbound k n -> strict (tvb false n) (tv_any decode t k).
+    Proof.
+      destruct k as [op vi|vi|s|s|st en]; cbn [kbound tv_any].
+      - intros (en & A & B & C). eapply tv_any_at_ok; eauto.
+      - intros (en & A & B & C). eapply tv_any_at_ok; eauto.
+      - intros _. cbn. apply Hdec.
+      - intros H. exact H.
+      - intros [A B]. cbn. split; [exact A|lia].
+    Qed.
+
+    Lemma tv_map_ok k n : kbound k n -> strict (tvb false n) (tv_map decode t k).
+    Proof.
+      intros Hk. pose proof (tv_any_ok k n Hk) as Hany.
+      assert (Hv : forall vi, (exists en, vi < en /\ rng vi en /\ en - vi <= n) ->
+                strict (tvb false n) (tv_any decode t k) ->
+                strict (tvb false n)
+                  (do tk <- TextDeTape.tget t vi;
+                   match read_object vi tk with
+                   | Some (st, en) => Ok (TVMap st en)
+                   | None => tv_any decode t k
+                   end)).
+      { intros vi (en & A & B & C) Ha. destruct (val_cases vi en A B) as (tk & K & Htk).
+        rewrite (tget_some _ _ K). cbn [obind].
+        destruct tk; cbn [read_object]; try exact Ha.
+        - destruct (map_ok_arr _ _ _ K) as (M1 & M2 & M3 & M4). cbn [strict tvb]. split; [exact M1|]. lia.
+        - destruct (map_ok_obj _ _ _ K) as (M1 & M2 & M3 & M4). cbn [strict tvb]. split; [exact M1|]. lia. }
+      destruct k as [op vi|vi|s|s|st en]; cbn [tv_map]; try exact Hany.
+      - apply Hv; [exact Hk|exact Hany].
+      - apply Hv; [exact Hk|exact Hany].
+    Qed.
+
+    Lemma k_read_scalar_ok k n : kbound k n -> strict (fun _ => True) (k_read_scalar t k).
+    Proof.
+      destruct k as [op vi|vi|s|s|st en]; cbn [kbound k_read_scalar]; try (intros; exact I).
+      - intros (en & A & [B1 B2] & C). eapply strict_bind; [apply tget_strict; lia|]. intros; exact I.
+      - intros (en & A & [B1 B2] & C). eapply strict_bind; [apply tget_strict; lia|]. intros; exact I.
+    Qed.
+
+    Lemma k_read_str_ok k n : kbound k n ->
+      strict (fun c => match c with Some c => wfl (cow_bytes c) | None => True end) (k_read_str decode t k).
+    Proof.
+      assert (Hv : forall vi, vi < length t ->
+                strict (fun c => match c with Some c => wfl (cow_bytes c) | None => True end)
+                  (do tk <- TextDeTape.tget t vi;
+                   match tk with
+                   | TOperator o => Ok (Some (Borrowed (op_symbol o)))
+                   | _ => Ok (match tok_scalar tk with Some s => Some (decode s) | None => None end)
+                   end)).
+      { intros vi L. eapply strict_bind; [apply tget_strict; exact L|]. intros tk _.
+        destruct tk; cbn; auto; try apply Hdec. apply op_symbol_wfl. }
+      destruct k as [op vi|vi|s|s|st en]; cbn [kbound k_read_str]; try (intros; exact I).
+      - intros (en & A & [B1 B2] & C). apply Hv. lia.
+      - intros (en & A & [B1 B2] & C). apply Hv. lia.
+      - intros _. cbn. apply Hdec.
+    Qed.
+
+    Lemma tv_scalar_hint_ok h k n : kbound k n -> strict (tvb false n) (tv_scalar_hint decode parse_f64 t h k).
+    Proof.
+      intros Hk. unfold tv_scalar_hint. eapply strict_bind; [apply (k_read_scalar_ok k n Hk)|].
+      intros [raw|] _; [|apply tv_any_ok; exact Hk].
+      destruct (scalar_prim decode parse_f64 true h raw); try exact I. apply tv_any_ok; exact Hk.
+    Qed.
+
+    Definition is_seq_hint (h : thint) : bool := match h with THSeq => true | _ => false end.
+
+    Lemma tv_seq_ok vi n : (exists en, vi < en /\ rng vi en /\ en - vi <= n) ->
+      strict (tvb true n) (tv_seq_at decode t vi).
+    Proof.
+      intros (en & A & B & C). eapply strict_mono; [apply (tv_seq_at_ok _ en n A B C)|].
+      intros v Hv. apply (tvb_mono (is_hdr vi) true n n v Hv); auto.
+    Qed.
+
+    Lemma tv_enum_ok vi n : (exists en, vi < en /\ rng vi en /\ en - vi <= n) ->
+      strict (tvb false n)
+        (do tk <- TextDeTape.tget t vi;
+         do ra <- read_array t vi tk;
+         match ra with
+         | Some (st, en) =>
+             if st <? en then do nx <- next_idx_values t st; Ok (TVEnum st (Some (nx, en)))
+             else Err EC_DE
+         | None => Ok (TVEnum vi None)
+         end).
+    Proof.
+      intros (en & A & B & C). destruct (val_cases vi en A B) as (tk & K & Htk).
+      rewrite (tget_some _ _ K). cbn [obind].
+      eapply strict_bind; [apply (read_array_ok' vi en tk A B K)|].
+      intros [[st e]|] H.
+      - destruct H as ([H1 H1'] & H2 & H3). destruct (st <? e) eqn:E; [|exact I]. apply Nat.ltb_lt in E.
+        eapply strict_bind; [apply nxv_strict; lia|]. intros nx _. cbn [strict tvb]. split; [|exact H1'].
+        exists (e - st), e. split; [exact E|]. split; [split; assumption|lia].
+      - cbn [strict tvb]. split; [|exact I]. exists n, en. auto.
+    Qed.
+
+    Lemma tape_visit_ok h k n : kbound k n ->
+      strict (tvb (is_seq_hint h) n) (tape_visit decode parse_f64 t h k).
+    Proof.
+      intros Hk.
+      assert (Hany : forall b, strict (tvb b n) (tv_any decode t k)).
+      { intros b. eapply strict_mono; [apply (tv_any_ok k n Hk)|]. intros v Hv. apply (tvb_mono false b n n v Hv); auto. discriminate. }
+      assert (Hmap : forall b, strict (tvb b n) (tv_map decode t k)).
+      { intros b. eapply strict_mono; [apply (tv_map_ok k n Hk)|]. intros v Hv. apply (tvb_mono false b n n v Hv); auto. discriminate. }
+      assert (Hsc : forall b h', strict (tvb b n) (tv_scalar_hint decode parse_f64 t h' k)).
+      { intros b h'. eapply strict_mono; [apply (tv_scalar_hint_ok h' k n Hk)|]. intros v Hv. apply (tvb_mono false b n n v Hv); auto. discriminate. }
+      assert (Hstatic : forall s, k = KStatic s -> forall b, strict (tvb b n) (Ok (TVPrim (TPStr true s)))).
+      { intros s -> b. exact Hk. }
+      unfold tape_visit.
+      destruct k as [op vi|vi|s|s|st en]; try (eapply Hstatic; reflexivity).
+      (* KOpVal, KVal, KScalar, KArr *)
+      all: destruct h; try (apply Hany); try (apply Hmap); try (apply Hsc); try exact I; try exact Hk.
+      all: try (eapply strict_bind; [apply (k_read_str_ok _ n Hk)|]; intros [c|] Hc; [exact Hc|apply Hany]).
+      all: try (eapply strict_bind; [apply (k_read_scalar_ok _ n Hk)|]; intros [c|] Hc; [exact I|apply Hany]).
+      all: try (destruct prop; [|apply Hmap]); try (apply Hmap); try exact Hk.
+      all: try (apply tv_seq_ok; exact Hk).
+      all: try (apply tv_enum_ok; exact Hk).
+      all: try (cbn [is_seq_hint strict tvb]; cbn [kbound] in Hk; destruct Hk; split; auto; lia).
+    Qed.
